@@ -1,5 +1,45 @@
-(* C10 - placeholder until Proofs/QueueP.v lands *)
-From GM Require Import Model.Queue.
-Theorem C10_init_empty : forall max ifexp, q_l (q_new max ifexp) = nil.
-Proof. reflexivity. Qed.
-Print Assumptions C10_init_empty.
+(* C10 - session message queue: bounded, FIFO, conserving, drops by documented priority.
+   Statements only; proofs in Proofs/QueueP.v.  The abstract queue of the statement is
+   Oracle/C10O.v (queued list + in-flight table; `step_ok` accepts exactly the outputs the
+   statement allows: drop ladder, FIFO, id assignment, expiry/size filtering, replay after
+   Init(clean=false), Remove/Replace on delivered entries; `inv_ok`: counters = contents,
+   length <= max).  The same checker is run on the implementation's outputs by the check. *)
+From Coq Require Import List NArith.
+Import ListNotations.
+From GM Require Import Base.Topic Base.Msg Model.Queue Oracle.C10O Proofs.QueueP.
+
+(* the length never exceeds the configured maximum, for every history whatsoever *)
+Theorem C10_bounded :
+  forall (max : nat) (ifexp : N) (ops : list qop), (1 <= max)%nat ->
+    (length (q_l (fst (q_run (q_new max ifexp) ops))) <= max)%nat.
+Proof. exact q_bounded. Qed.
+Print Assumptions C10_bounded.
+
+(* no operation panics under the calling discipline of the broker (wf_run: Add gets a
+   PUBLISH without id and a fresh tag; Read only after the in-flight entries were drained,
+   with non-zero ids; Replace gets a PUBREL) *)
+Theorem C10_no_panic :
+  forall (max : nat) (ifexp : N) (ops : list qop), (1 <= max)%nat ->
+    wf_run (q_new max ifexp) [] ops = true -> ~ In RPanic (snd (q_run (q_new max ifexp) ops)).
+Proof. exact q_no_panic. Qed.
+Print Assumptions C10_no_panic.
+
+(* refinement: every output of the queue model, at every step of every well-formed
+   history, is accepted by the abstract queue of the statement, and the abstract
+   invariant (bounded, counters equal contents) holds after every step *)
+Theorem C10_refines_abstract_queue :
+  forall (max : nat) (ifexp : N) (ops : list qop), (1 <= max)%nat ->
+    wf_run (q_new max ifexp) [] ops = true ->
+    c10_ok max ifexp ops (map oout_of (model_outs max ifexp ops)) = true.
+Proof. exact q_refines_abstract. Qed.
+Print Assumptions C10_refines_abstract_queue.
+
+Theorem C10_cursor_in_range :
+  forall (max : nat) (ifexp : N) (ops : list qop),
+    (q_cur (fst (q_run (q_new max ifexp) ops)) <= length (q_l (fst (q_run (q_new max ifexp) ops))))%nat.
+Proof. exact q_cursor_in_range. Qed.
+Print Assumptions C10_cursor_in_range.
+
+(* non-vacuity: a 17-operation history through every kind of operation satisfies wf_run *)
+Example C10_nonvacuous : wf_run (q_new 3 10) [] ex_hist = true.
+Proof. exact ex_hist_wf. Qed.
